@@ -680,6 +680,51 @@ def catoms_of_guards(ctx, func, stmt, stop=None, asserts=False):
     return {catom(ctx, func, t, pol, True) for t, pol in atomic_guards(stmt, stop, asserts)}
 
 
+def fold_const_subscripts(e):
+    """`(a, b)[0]` -> `a` (after a parameter was replaced by a literal)."""
+    class F(ast.NodeTransformer):
+        def visit_Subscript(self, n):
+            self.generic_visit(n)
+            if isinstance(n.value, (ast.Tuple, ast.List)) and \
+                    isinstance(n.slice, ast.Constant) and isinstance(n.slice.value, int) \
+                    and -len(n.value.elts) <= n.slice.value < len(n.value.elts) and \
+                    not any(isinstance(x, ast.Starred) for x in n.value.elts):
+                return n.value.elts[n.slice.value]
+            return n
+    return F().visit(e)
+
+
+def checker_call(ctx, func, call):
+    """`self.h(a, ..)` where h is a method of the same class whose body is
+    (a docstring and) one `assert`: the asserted test with h's parameters
+    replaced by the arguments, else None.  A precondition moved into a
+    checking helper reads like the assert it contains."""
+    from .symcase import clone
+    if not (isinstance(call, ast.Call) and isinstance(call.func, ast.Attribute)
+            and isinstance(call.func.value, ast.Name) and func.cls is not None
+            and func.params and call.func.value.id == func.params[0]):
+        return None
+    h = func.cls.methods.get(call.func.attr)
+    if h is None or h.node is None or h.kind != "method" or not h.params:
+        return None
+    body = [b for b in h.body if not (isinstance(b, ast.Expr) and
+                                      isinstance(b.value, ast.Constant))]
+    if len(body) != 1 or not isinstance(body[0], ast.Assert):
+        return None
+    if call.keywords or len(call.args) != len(h.params) - 1 or \
+            any(isinstance(a, ast.Starred) for a in call.args):
+        return None
+    bind = dict(zip(h.params[1:], call.args))
+    bind[h.params[0]] = call.func.value
+
+    class Sub(ast.NodeTransformer):
+        def visit_Name(self, n):
+            if isinstance(n.ctx, ast.Load) and n.id in bind:
+                return clone(bind[n.id])
+            return n
+    return fold_const_subscripts(Sub().visit(clone(body[0].test)))
+
+
 def T(text_, pol=True):
     """Canonical truth atom."""
     return ("truth", text_.replace(" ", ""), pol)
